@@ -5,6 +5,7 @@ import (
 	"fmt"
 
 	"github.com/biogo/biogo/alphabet"
+	"github.com/biogo/biogo/io/seqio"
 	"github.com/biogo/biogo/io/seqio/fasta"
 	"github.com/biogo/biogo/io/seqio/fastq"
 	"github.com/biogo/biogo/seq"
@@ -33,7 +34,7 @@ func init() {
 		Case:        c01Case,
 		MinDistinct: func(t string) int { return 800 },
 		Floors: func(string) map[string]int64 {
-			return map[string]int64{"records_compared": 3000, "records_over_8192": 20, "fastq_quality_records": 500, "write_calls_counted": 3000, "format_verb_roundtrips": 300, "empty_lists": 5}
+			return map[string]int64{"records_compared": 3000, "records_over_8192": 20, "fastq_quality_records": 500, "write_calls_counted": 3000, "format_verb_roundtrips": 300, "empty_lists": 5, "scanner_passes": 800}
 		},
 		Assumptions: []string{"records are written at offset 0 (the writers index from 0)", "the reference parsers assume the canonical layout the writers emit (one header line, LF terminators)"},
 	})
@@ -164,6 +165,37 @@ func c01Case(r *obs.Run, i int) {
 				}
 			}
 		}
+	}
+
+	// the same bytes through seqio.Scanner
+	{
+		var rd seqio.Reader
+		switch {
+		case isFastq && plainTemplate:
+			rd = fastq.NewReader(newSrc(rng, data), linear.NewSeq("", nil, al.a))
+		case isFastq:
+			rd = fastq.NewReader(newSrc(rng, data), linear.NewQSeq("", nil, al.a, enc))
+		default:
+			rd = fasta.NewReader(newSrc(rng, data), linear.NewSeq("", nil, al.a))
+		}
+		sc := seqio.NewScanner(rd)
+		k := 0
+		for sc.Next() {
+			if k >= len(recs) {
+				fail("scanner", fmt.Sprintf("seqio.Scanner yields more than the %d records written", len(recs)))
+				return
+			}
+			if d := recEqual(recs[k], seqToRec(sc.Seq(), cmpQ), cmpQ); d != "" {
+				fail("scanner", fmt.Sprintf("seqio.Scanner record %d: %s", k, d))
+				return
+			}
+			k++
+		}
+		if err := sc.Error(); err != nil || k != len(recs) {
+			fail("scanner", fmt.Sprintf("seqio.Scanner stopped after %d of %d records, Error()=%v", k, len(recs), err))
+			return
+		}
+		r.Count("scanner_passes", 1)
 	}
 
 	// independent parser of the emitted bytes
